@@ -169,7 +169,11 @@ pub fn run_case(ctx: &Ctx, case: &Case) -> Outcome {
         if !line.is_ascii() || line.split(' ').skip(1).any(|t| nasty.iter().skip(1).any(|x| x == t) && (t.len() > 3 || t.starts_with('-') || t.contains(';') || t.contains('\n') || t == "\0")) {
             nontrivial = nontrivial || words().iter().any(|w| !w.is_empty() && line.starts_with(w.as_str()));
         }
-        let line = &line.replace("{PENDING}", &pending_id);
+        // {PENDING_CONFLICT}: the key under which the waiting conflict is registered; {LAST_OP}: the id the next conflict
+        // record of this session will carry cannot be known, so the line names every $conflicts_ key there is
+        let conflict_key = node.dump_db("probe").and_then(|m| m.keys().find(|k| k.starts_with("$conflicts_k_x")).cloned()).unwrap_or_else(|| "$conflicts_k_x_1".to_string());
+        let conn_conflict = node.dump_db("probe").and_then(|m| m.keys().find(|k| k.starts_with("$conflicts_$connections")).cloned()).unwrap_or_else(|| "$conflicts_$connections_1".to_string());
+        let line = &line.replace("{PENDING_CONFLICT}", &conflict_key).replace("$conflicts_$connections_{LAST_OP}", &conn_conflict).replace("{PENDING}", &pending_id);
         for _ in 0..reps {
             use std::panic::{catch_unwind, AssertUnwindSafe};
             crate::node::use_dir(&node.dir);
@@ -282,6 +286,111 @@ fn systematic() -> Vec<Case> {
     out
 }
 
+// ------------------------------------------------------------------------------------------------
+// lines whose damage would take the whole process down (stack exhaustion, allocation failure): run in a child process
+// ------------------------------------------------------------------------------------------------
+
+#[derive(Clone, Debug, Serialize, Deserialize)]
+pub struct ChildCase {
+    /// "none" | "db" | "admin"
+    pub auth: String,
+    /// the line is `prefix` repeated `depth` times followed by `inner`
+    pub prefix: String,
+    pub depth: u32,
+    pub inner: String,
+}
+
+pub fn child_main(scratch: &str, auth: &str, file: &str) -> i32 {
+    setup_process();
+    let line = std::fs::read_to_string(file).unwrap_or_default();
+    let mut node = Node::boot_single(scratch);
+    let mut admin = Session::new();
+    admin.auth(&node);
+    admin.send(&node, "create-db probe ptok");
+    node.pump();
+    let dbs = node.dbs.clone();
+    let auth = auth.to_string();
+    // the TCP front end runs every connection on a spawned thread (default stack size)
+    let h = std::thread::spawn(move || {
+        let (mut client, _rx) = nundb::bo::Client::new_empty_and_receiver();
+        if auth == "admin" {
+            nundb::process_request::process_request(&format!("auth {} {}", crate::node::USER, crate::node::PWD), &dbs, &mut client);
+        }
+        if auth != "none" {
+            nundb::process_request::process_request("use-db probe ptok", &dbs, &mut client);
+        }
+        let _ = std::panic::catch_unwind(std::panic::AssertUnwindSafe(|| nundb::process_request::process_request(&line, &dbs, &mut client)));
+    });
+    let _ = h.join();
+    0
+}
+
+pub fn run_child_case(ctx: &Ctx, case: &ChildCase) -> Outcome {
+    use std::os::unix::process::ExitStatusExt;
+    let dir = ctx.fresh_dir();
+    let file = format!("{}/line.txt", dir);
+    let line = format!("{}{}", case.prefix.repeat(case.depth as usize), case.inner);
+    std::fs::write(&file, &line).unwrap();
+    let scratch = format!("{}/node", dir);
+    std::fs::create_dir_all(&scratch).unwrap();
+    let mut out = Outcome::ok(case.depth >= 100);
+    out.classes.push("in-a-child-process");
+    let exe = std::env::current_exe().unwrap();
+    let status = std::process::Command::new(exe).args(["c10-child", &scratch, &case.auth, &file]).stdout(std::process::Stdio::null()).stderr(std::process::Stdio::null()).status();
+    match status {
+        Ok(st) => {
+            if let Some(sig) = st.signal() {
+                out.fail = Some((format!("C10|process-killed|{}|signal-{}", word_of(&format!("{}{}", case.prefix, case.inner)), sig), format!("one line from a session with auth {:?} killed the whole process (signal {}): {:?} x {} + {:?} ({} bytes)", case.auth, sig, case.prefix, case.depth, case.inner, line.len())));
+            }
+        }
+        Err(e) => eprintln!("C10 child engine: cannot start the child: {}", e),
+    }
+    ctx.drop_dir(&dir);
+    out
+}
+
+fn child_family() -> Vec<ChildCase> {
+    let mut out = vec![];
+    for auth in ["none", "db", "admin"] {
+        for (prefix, inner) in [("rp 1 ", "get k"), ("rp 1 ", "set k v"), ("rp 18446744073709551615 ", "unknown"), ("set k ", "v"), ("get ", "k"), ("keys ", "*"), ("; ", "get k")] {
+            for depth in [2u32, 60, 300, 2000, 20_000] {
+                out.push(ChildCase { auth: auth.to_string(), prefix: prefix.to_string(), depth, inner: inner.to_string() });
+            }
+        }
+    }
+    out
+}
+
+/// world 1 (arbiter database, a conflict waiting): every sequence of three lines of a pool that touches the conflict
+/// machinery — the record of the waiting conflict removed or overwritten, keys whose names are patterns, the
+/// connection counter in conflict, arbiters coming and going
+fn conflict_family() -> Vec<Case> {
+    let pool = [
+        "remove {PENDING_CONFLICT}",
+        "set {PENDING_CONFLICT} x",
+        "set-safe k_x 0 again",
+        "set-safe *a* 0 v",
+        "set-safe * 0 v",
+        "set-safe $connections 0 v",
+        "remove $conflicts_$connections_{LAST_OP}",
+        "use-db probe ptok",
+        "unwatch $conflicts",
+        "arbiter",
+        "unwatch-all",
+        "keys $conflicts",
+        "set k_x plain",
+    ];
+    let mut out = vec![];
+    for a in pool.iter() {
+        for b in pool.iter() {
+            for c in pool.iter() {
+                out.push(Case { auth: Auth::DbToken, lines: vec![a.to_string(), b.to_string(), c.to_string()], repeat: 1, world: 1 });
+            }
+        }
+    }
+    out
+}
+
 pub fn run(ctx: &Ctx, rep: &mut Report) {
     setup_process();
     let n = ctx.amount(30_000, 1_000_000);
@@ -290,12 +399,21 @@ pub fn run(ctx: &Ctx, rep: &mut Report) {
         enumerate(ctx, rep, "word-x-token-x-position", systematic().into_iter(), |c| run_case(ctx, c));
     }
     if rep.failures.is_empty() {
+        enumerate(ctx, rep, "conflict-world-triples", conflict_family().into_iter(), |c| run_case(ctx, c));
+    }
+    if rep.failures.is_empty() {
+        enumerate(ctx, rep, "long-lines-in-a-child-process", child_family().into_iter(), |c| run_child_case(ctx, c));
+    }
+    if rep.failures.is_empty() {
         run_transports(ctx, rep);
     }
 }
 
 pub fn replay(ctx: &Ctx, engine: &str, case: &J) -> Result<Option<(String, String)>, String> {
     setup_process();
+    if engine == "long-lines-in-a-child-process" {
+        return replay_guarded::<ChildCase>(ctx, case, |c| run_child_case(ctx, c));
+    }
     if engine.starts_with("transports") {
         let srv = TServer::start(ctx);
         return replay_guarded::<TCase>(ctx, case, |c| run_transport_case(&srv, c));
